@@ -1038,6 +1038,54 @@ fn huge_value_case(rep: &mut Report, i: u64, seed: u64) {
     run_and_note(rep, &Exec { f: &f, a, b, tol, solver: Solver::Itp { k1, k2, n0 }, expect });
 }
 
+/// Flat functions with a large root close to one end of the bracket (round 11): s (x-r)^k, k = 3 or 5,
+/// r = 1e7 ... 2e9, one end 1e-7 ... 1e-4 below or above the root, the other 1e-3 ... 1 on the other side,
+/// brackets in either order. Near the root the secant point of a flat function barely moves from the near
+/// end; with the float spacing at r (1e-9 ... 2e-7) comparable to the projection radius k1 width^k2 its
+/// rounding decides on which side of that end it lands - the interpolation point must still be a point
+/// of the bracket. Cases 0..5 are the inputs of the demonstration of the seeded change C07-m29.
+fn large_flat_case(rep: &mut Report, i: u64, seed: u64) {
+    let (f, a, b, tol, k1, k2, n0);
+    if i < 6 {
+        let c = if i < 4 { 1e8 } else { 1e9 };
+        f = Func::simple(Kind::Cubic, c, 1.0, 1.0);
+        let (lo, hi) = if i < 4 { (99999999.999999, 100000000.05) } else { (999999999.0, 1000000000.000002) };
+        a = if i % 2 == 0 { lo } else { hi };
+        b = if i % 2 == 0 { hi } else { lo };
+        tol = if (i / 2) % 2 == 0 { 1e-8 } else { 1e-12 };
+        k1 = 0.1;
+        k2 = 2.0;
+        n0 = 1.0;
+    } else {
+        let mut rng = Rng::for_case(seed, "c07-large-flat", i);
+        let r = rng.log10(7.0, 9.3) * rng.sign();
+        let kind = if rng.bool() { Kind::Cubic } else { Kind::Quintic };
+        f = Func::simple(kind, r, rng.sign() * rng.r(0.2, 3.0), 1.0);
+        let near = rng.log10(-7.0, -4.0);
+        let far = rng.log10(-3.0, 0.0);
+        let (lo, hi) = if rng.bool() { (r - near, r + far) } else { (r - far, r + near) };
+        let swap = rng.bool();
+        a = if swap { hi } else { lo };
+        b = if swap { lo } else { hi };
+        tol = rng.log10(-12.0, -6.0);
+        let pr = gen_itp_params(&mut rng);
+        k1 = if rng.bool() { 0.1 } else { pr.0 };
+        k2 = if rng.bool() { 2.0 } else { pr.1 };
+        n0 = pr.2;
+    }
+    let expect = match classify(&f, a, b) {
+        Some(e) => e,
+        None => {
+            // the near end rounded onto the other side of the root: not a bracket, nothing to run
+            rep.count("large_flat/generated_without_sign_change", 1);
+            return;
+        }
+    };
+    rep.count("problems/flat_function_with_a_root_of_size_1e7_to_2e9_near_one_end", 1);
+    run_and_note(rep, &Exec { f: &f, a, b, tol, solver: Solver::Brent, expect });
+    run_and_note(rep, &Exec { f: &f, a, b, tol, solver: Solver::Itp { k1, k2, n0 }, expect });
+}
+
 // ---------------------------------------------------------------- stages
 
 pub fn stages(ctx: &Ctx) -> Vec<Stage> {
@@ -1054,6 +1102,7 @@ pub fn stages(ctx: &Ctx) -> Vec<Stage> {
         let mut rng = Rng::for_case(seed, "c07-random", i);
         random_case(&mut rng, rep);
     }));
+    st.push(Stage::new("large-flat-root-near-an-end", tier.pick(60_000, 1_000_000), move |i, rep| large_flat_case(rep, i, seed)));
     st.push(Stage::new("huge-values", tier.pick(30_000, 300_000), move |i, rep| huge_value_case(rep, i, seed)));
     // exact-hit grid: complete in both tiers; thorough adds m <= 6, more tolerances, and the same
     // grid translated by 64 (dyadic, far from zero)
@@ -1074,6 +1123,7 @@ pub fn thresholds(ctx: &Ctx, rep: &Report) -> Vec<Threshold> {
     t.push(Threshold { what: "roots of size 1e5 ... 1e9 with a tolerance at or below the spacing of the floats".into(), required: ctx.tier.pick(800.0, 8_000.0), observed: rep.counter("problems/root_of_size_1e5_to_1e9_with_a_tolerance_near_the_float_spacing") as f64 });
     t.push(Threshold { what: "valid brackets already narrower than the tolerance".into(), required: ctx.tier.pick(500.0, 5_000.0), observed: rep.counter("problems/bracket_narrower_than_the_tolerance") as f64 });
     t.push(Threshold { what: "brackets with a finite end value above 1e290".into(), required: ctx.tier.pick(15_000.0, 150_000.0), observed: rep.counter("problems/huge_finite_end_value") as f64 });
+    t.push(Threshold { what: "flat functions with a root of size 1e7 ... 2e9 close to one end of the bracket".into(), required: ctx.tier.pick(40_000.0, 700_000.0), observed: rep.counter("problems/flat_function_with_a_root_of_size_1e7_to_2e9_near_one_end") as f64 });
     t.push(Threshold { what: "brackets with finite values above 1e290 at BOTH ends".into(), required: ctx.tier.pick(7_000.0, 70_000.0), observed: rep.counter("problems/huge_finite_values_at_both_ends") as f64 });
     t.push(Threshold { what: "steep exponentials whose finite end values differ by more than 1e17".into(), required: ctx.tier.pick(1_000.0, 10_000.0), observed: rep.counter("problems/steep_exponential_with_end_values_1e17_apart") as f64 });
     t.push(Threshold { what: "steep exponentials with an end value that overflows to infinity".into(), required: ctx.tier.pick(100.0, 1_000.0), observed: rep.counter("problems/steep_exponential_with_an_infinite_end_value") as f64 });
